@@ -167,7 +167,7 @@ def build_network(case, **kw):
     return net
 
 
-def render(net, outdir, backends=BACKENDS, templates="ode", jac_pattern=False, name="vtproj"):
+def render(net, outdir, backends=BACKENDS, templates="ode", jac_pattern=False, name="vtproj", path_as_str=False):
     """Render through the public TemplateLoader.render; returns {method: Project}."""
     from naunet.templateloader import TemplateLoader
 
@@ -177,7 +177,8 @@ def render(net, outdir, backends=BACKENDS, templates="ode", jac_pattern=False, n
         p.mkdir(parents=True, exist_ok=True)
         tl = TemplateLoader(solver, method, device)
         tmpl = ODE_TEMPLATES[solver] if templates == "ode" else None
-        tl.render(name, net, templates=tmpl, path=p, jac_pattern=jac_pattern)
+        # the signature takes `path: Path | str`
+        tl.render(name, net, templates=tmpl, path=str(p) if path_as_str else p, jac_pattern=jac_pattern)
         projs[method] = Project(p, solver, method, device)
     return projs
 
